@@ -4,9 +4,10 @@
 
   Property theorems only (namespace `Acn.C16`, continuing `AcnProofs/C16.lean`; a file of its own so that a
   change of auto_acn.py rebuilds this file and not the three-site proofs).  Carrier: any linear ordered field.
-  The expressions the factory passes to `register_evse` / `add_constraint` are regenerated from the AST on
-  every run (`Gen/SimpleAcn.lean`); `simple_formula` is the obligation on them, `simple_instances` the
-  obligation on the executed calls.  Exact arithmetic; the doubles are tied by the correspondence (partial).
+  The dependence of the limit on (`aggregate_cap`, `voltage`) is fitted on every run to the networks the factory
+  of the working tree BUILDS (`Gen/SimpleAcn.lean`: a canonical monomial, the same for every spelling of the
+  formula); `simple_formula` is the obligation on it, `simple_instances` the obligation on the executed calls.
+  Exact arithmetic; the doubles are tied by the correspondence (partial).
 -/
 import AcnProofs.Lemmas.SimpleAcn
 
@@ -18,27 +19,17 @@ open Acn Acn.Feas Acn.SimpleAcn Acn.Gen.SimpleAcn Acn.SimpleAcnLemmas
 section
 variable {K : Type} [Field K] [LinearOrder K] [IsStrictOrderedRing K]
 
-set_option linter.unusedTactic false in
-set_option linter.unreachableTactic false in
-/-- **The regenerated body of `simple_acn`.**  It has the documented shape (one registration per station id
-    with the EVSE type asked for, one constraint over all station ids), every station is registered with the
-    `voltage` argument at phase angle 0, and the limit of the constraint is `(aggregate_cap / voltage) · 1000`
-    — for EVERY capacity and voltage; with `voltage = 0` Python's division raises.  (The proof normalises, so
-    an algebraically equal rewrite of the formula still satisfies the obligation.) -/
+/-- **The regenerated limit of `simple_acn`.**  The monomial fitted to the built networks is
+    `1000 · aggregate_cap / voltage`, so the limit of the aggregate constraint is `(aggregate_cap / voltage) · 1000`
+    [A] for EVERY capacity and voltage; with `voltage = 0` Python's division raises. -/
 theorem simple_formula (cap voltage : K) :
-    bodyShapeOk = true ∧
-    evalS cap voltage voltageExpr = .ok voltage ∧
-    evalS cap voltage angleExpr = .ok 0 ∧
-    evalS cap voltage limitExpr
-      = if voltage = 0 then .error .zeroDivision else .ok (cap / voltage * 1000) := by
-  refine ⟨by decide, ?_, ?_, ?_⟩
-  · simp [evalS, voltageExpr]
-  · simp [evalS, angleExpr, litK_eq]
-  · by_cases hv : voltage = 0
-    · simp [evalS, limitExpr, bind, Except.bind, isZero_iff, hv]
-    · simp [evalS, limitExpr, bind, Except.bind, isZero_iff, litK_eq, hv, pure, Except.pure]
-      all_goals (try field_simp)
-      all_goals (try ring)
+    limitMono = some { n := 1000, d := 1, cap := .times, voltage := .over } ∧
+    limitOf cap voltage = if voltage = 0 then .error .zeroDivision else .ok (cap / voltage * 1000) := by
+  have h : limitMono = some { n := 1000, d := 1, cap := .times, voltage := .over } := by decide
+  refine ⟨h, ?_⟩
+  by_cases hv : voltage = 0
+  · simp [limitOf, h, evalMono, applyDep, bind, Except.bind, isZero_iff, hv, pure, Except.pure]
+  · simp [limitOf, h, evalMono, applyDep, bind, Except.bind, isZero_iff, litK_eq, hv, pure, Except.pure]
 
 end
 
@@ -50,7 +41,7 @@ theorem simple_defaults_documented :
 /-- every executed call (1 / 2 / 3 / 4 / 5 / 54 stations; the three EVSE types; 120 / 208 / 240 / 277 / 480 V;
     integer and fractional capacities; each argument also omitted): distinct stations in the order asked for,
     all at 0° and the requested voltage, one constraint with coefficient 1 on every station whose limit is the
-    exact value of the regenerated formula (2⁻⁴⁰ relative for the double rounding), EVSEs of the requested type
+    exact value of the fitted monomial (2⁻⁴⁰ relative for the double rounding), EVSEs of the requested type
     (`SimpleAcn.instOk`). -/
 theorem simple_instances : insts.length = 8 ∧ insts.all instOk = true := by
   decide +kernel
@@ -67,14 +58,14 @@ theorem simple_acn_structure (ids : List String) (voltage cap : K) (hv : voltage
     simpleAcn ids voltage cap = .ok
       { stations := ids, voltages := List.replicate ids.length voltage, angles := List.replicate ids.length 0,
         M := [List.replicate ids.length 1], lims := [cap / voltage * 1000], names := [constraintName] } := by
-  obtain ⟨_, h1, h2, h3⟩ := simple_formula cap voltage
-  simp only [simpleAcn, h1, h2, h3, hv, if_false, bind, Except.bind, pure, Except.pure, map_const_eq]
+  obtain ⟨_, h⟩ := simple_formula cap voltage
+  simp only [simpleAcn, h, hv, if_false, bind, Except.bind, pure, Except.pure, map_const_eq]
 
 /-- with `voltage = 0` the factory raises `ZeroDivisionError` (after the registrations) -/
 theorem simple_acn_zero_voltage (ids : List String) (cap : K) :
     simpleAcn ids 0 cap = .error .zeroDivision := by
-  obtain ⟨_, h1, h2, h3⟩ := simple_formula cap (0 : K)
-  simp only [simpleAcn, h1, h2, h3, if_true, bind, Except.bind]
+  obtain ⟨_, h⟩ := simple_formula cap (0 : K)
+  simp only [simpleAcn, h, if_true, bind, Except.bind]
 
 example : simpleAcn ["a", "b", "c"] (208 : ℚ) 150 = .ok
     { stations := ["a", "b", "c"], voltages := [208, 208, 208], angles := [0, 0, 0], M := [[1, 1, 1]],
